@@ -348,6 +348,9 @@ func authfileCmd(args []string) error {
 	if base == "" {
 		base = filepath.Dir(*out)
 	}
+	if base, err = filepath.Abs(base); err != nil {
+		return err
+	}
 	tmp, err := os.MkdirTemp(base, "authfile")
 	if err != nil {
 		return err
